@@ -2,9 +2,9 @@
 use std::io::Write;
 use std::panic::AssertUnwindSafe;
 
-use bytes::BytesMut;
+use bytes::{Buf, BytesMut};
 use webpsan::parse::{
-    AlphChunk, AnimChunk, AnmfChunk, ChunkHeader, OneBasedU24, ParseChunk, ParseError, ParsedChunk, Vp8xChunk, WebmPrim, U24,
+    AlphChunk, AnimChunk, AnmfChunk, ChunkHeader, OneBasedU24, ParseChunk, ParseError, ParsedChunk, Reserved, Vp8xChunk, WebmPrim, U24,
 };
 
 use crate::rng::Rng;
@@ -173,6 +173,49 @@ fn u24_cases<W: Write>(out: &mut W, bytes: &[u8]) {
 
 const CHUNKS: [(&str, usize); 5] = [("Vp8xChunk", 10), ("AnimChunk", 6), ("AnmfChunk", 16), ("AlphChunk", 1), ("ChunkHeader", 8)];
 
+/// a primitive parsed from a segmented buffer (`Buf::chain` of two slices split at `k`) must give what the contiguous
+/// buffer gives: value (as re-serialised bytes) or error kind
+fn seg_res<T: WebmPrim, E>(r: Result<T, E>, kind_of: impl Fn(&E) -> &'static str) -> String {
+    match r {
+        Ok(v) => {
+            let mut put = Vec::new();
+            v.put_buf(&mut put);
+            format!("ok:{}", hex(&put))
+        }
+        Err(e) => format!("err:{}", kind_of(&e)),
+    }
+}
+
+fn seg_case<T: WebmPrim, W: Write>(out: &mut W, name: &str, bytes: &[u8]) {
+    let whole = crate::quiet(AssertUnwindSafe(|| seg_res(T::parse(bytes), |e| kind(e.get_ref())))).unwrap_or("panic".into());
+    let mut segs = vec![];
+    for k in 0..=bytes.len() {
+        let (a, b) = bytes.split_at(k);
+        let r = crate::quiet(AssertUnwindSafe(|| seg_res(T::parse(a.chain(b)), |e| kind(e.get_ref())))).unwrap_or("panic".into());
+        segs.push(format!("{k}:{r}"));
+    }
+    writeln!(out, "C17 kind=primseg ty={name} bytes={} whole={whole} segs={}", hex(bytes), segs.join(";")).unwrap();
+}
+
+fn seg_cases<W: Write>(out: &mut W, rng: &mut Rng, n: usize) {
+    for i in 0..n {
+        // reserved fields: all zero, one non-zero byte at each position, random
+        let mut b3 = vec![0u8; 3];
+        match i % 5 {
+            0 => {}
+            1 | 2 | 3 => b3[i % 5 - 1] = 1 + rng.below(255) as u8,
+            _ => b3 = rng.bytes(3),
+        }
+        seg_case::<Reserved<3>, W>(out, "reserved3", &b3);
+        seg_case::<Reserved<1>, W>(out, "reserved1", &b3[..1]);
+        seg_case::<U24, W>(out, "u24", &rng.bytes(3));
+        seg_case::<OneBasedU24, W>(out, "u24p1", &rng.bytes(3));
+        seg_case::<u16, W>(out, "u16", &rng.bytes(2));
+        seg_case::<u32, W>(out, "u32", &rng.bytes(4));
+        seg_case::<u8, W>(out, "u8", &rng.bytes(1));
+    }
+}
+
 pub fn replay<W: Write>(line: &str, out: &mut W) {
     let get = |k: &str| line.split(' ').find_map(|t| t.strip_prefix(&format!("{k}=")).map(|s| s.to_string()));
     let unhex = |s: &str| -> Vec<u8> {
@@ -220,6 +263,9 @@ pub fn replay<W: Write>(line: &str, out: &mut W) {
 pub fn run<W: Write>(opts: &Opts, out: &mut W) {
     let mut rng = Rng::new(opts.seed);
     let n = if opts.tier_thorough { 20000 } else { 1500 };
+    if opts.shard.0 == 0 {
+        seg_cases(out, &mut rng.fork(0x5e6), if opts.tier_thorough { 400 } else { 60 });
+    }
     // exhaustive 8- and 16-bit primitives
     for v in 0..=u8::MAX {
         prim_case!(out, u8, u8, "u8", v);
